@@ -28,6 +28,12 @@ impl<A: Actor> Receiver<A> {
             },
         }
     }
+
+    /// Drops the messages that were accepted and will never be handled, so that
+    /// whoever waits for a reply to one of them learns that none will come.
+    pub(crate) fn discard_queued(&self) {
+        while self.messages.try_recv().is_ok() {}
+    }
 }
 
 pub(crate) enum MailboxEvent<A: Actor> {
